@@ -352,9 +352,16 @@ def make_callable(forest, mod, qual, interp, extra_env=None):
 def callable_env(forest, mod, interp, extra_env=None):
     """Global environment of `mod` in which its own top-level functions can call each other."""
     genv = _evmod.base_env(forest, mod)
+    foreign = {}
     for k, v in list(genv.items()):
         if isinstance(v, FuncRef) and isinstance(v.node, ast.FunctionDef):
-            genv[k] = FuncVal(v.node, genv, interp)
+            if v.mod == mod:
+                genv[k] = FuncVal(v.node, genv, interp)
+            else:
+                # a function imported by name runs in the globals of its own module
+                if v.mod not in foreign:
+                    foreign[v.mod] = callable_env(forest, v.mod, interp)
+                genv[k] = FuncVal(v.node, foreign[v.mod], interp)
     if extra_env:
         genv.update(extra_env)
     return genv
